@@ -173,21 +173,11 @@ func (p *Prog) errorfSentinel(v ssa.Value) string {
 	if !ok {
 		return ""
 	}
-	if calleeQualified(&c.Call) != "fmt.Errorf" || len(c.Call.Args) < 2 {
+	sh := p.shapeOf(c)
+	if sh.Kind != "errorf" || !strings.HasPrefix(sh.Text, "%w") || len(sh.Sentinels) == 0 {
 		return ""
 	}
-	fc, ok := c.Call.Args[0].(*ssa.Const)
-	if !ok || fc.Value == nil || !strings.HasPrefix(constString(fc), "%w") {
-		return ""
-	}
-	args := variadicArgs(c.Call.Args[1])
-	if len(args) == 0 {
-		return ""
-	}
-	if g := loadedGlobal(args[0]); g != nil && g.Pkg != nil {
-		return g.Pkg.Pkg.Name() + "." + g.Name()
-	}
-	return ""
+	return sh.Sentinels[0]
 }
 
 func constString(c *ssa.Const) string {
